@@ -108,6 +108,7 @@ var c11Pool = []string{
 	"http://localhost/cb", "http://localhost:3000/cb", "com.example.app:/oauth", "myapp://callback", "https://app.example:8443/cb",
 	"http://app.example/insecure", "https://app.example/a/b", "http://127.0.0.1/cb?tenant=1", "http://app.localhost/cb",
 	"/cb", "//app.example/cb", "app.example/cb",
+	"https://app.example/cb%2Fv2", "https://app.example/acme%3Aeu/cb", "https://app.example/q?",
 }
 
 func c11Mutations(base string) []string {
@@ -351,6 +352,17 @@ func sameTarget(out *world.AuthzOut, target string) string {
 	got := out.Target
 	if got == nil {
 		return "location unparsable"
+	}
+	// string identity where it can be demanded: if the qualifying URI survives Go's own parse / print round trip unchanged,
+	// the Location must start with exactly that spelling (escapes, single-slash custom schemes ... included)
+	if want.String() == target {
+		base := target
+		if i := strings.IndexAny(base, "?#"); i >= 0 {
+			base = base[:i]
+		}
+		if !strings.HasPrefix(out.Location, base) || (len(out.Location) > len(base) && !strings.ContainsRune("?#", rune(out.Location[len(base)]))) {
+			return "spelling"
+		}
 	}
 	return cmpURL(got, want, responseParamNames)
 }
